@@ -88,7 +88,10 @@ Inductive cname :=
 | KMapRetLazy | KCloRetLazy | KTopMapLazy | KTopListLazy | KTopMapMapLazy
 (* a parallel accept that rejects some items (or a parallel map followed by an accept), then a consumer
    closure holding the fault: reduce / visit / present callback, a later map, the same inside try *)
-| KAccDown | KAccDownMap | KTryAccDown | KTryAccDownMap.
+| KAccDown | KAccDownMap | KTryAccDown | KTryAccDownMap
+(* the fault is raised while item i of a lazy list is computed; the stages and the consumer behind it
+   demand the first d items (sequential lazy semantics, stated per context by the harness) *)
+| KDemand (d i : N) | KTryDemand (d i : N).
 
 (* stage 0 is the stage whose switch to parallel mode was observed; later stages run fast closures *)
 Definition build (k : cname) (f : fault) : prog :=
@@ -117,19 +120,25 @@ Definition build (k : cname) (f : fault) : prog :=
   | KAccDownMap => PDown 0 (PStage 1 (PCall l))
   | KTryAccDown => PTry (PDown 0 (PCall l))
   | KTryAccDownMap => PTry (PDown 0 (PStage 1 (PCall l)))
+  | KDemand d i => demand d i (PCall l)
+  | KTryDemand d i => PTry (demand d i (PCall l))
   end.
 
 (* a try with a constant catch value around everything *)
 Definition try_outermost (k : cname) : bool :=
   match k with
   | KTry | KTryClo | KTryInClo | KTryParMap | KTryCollReduce | KTryMultiUse | KTryMuRetMapLazy
-  | KTryAccDown | KTryAccDownMap => true
+  | KTryAccDown | KTryAccDownMap | KTryDemand _ _ => true
   | _ => false
   end.
 
 (* no try/catch anywhere: the evaluation (incl. the deep evaluation of the result) must hit the fault *)
 Definition no_try (k : cname) : bool :=
-  negb (try_outermost k) && match k with KParMapTry => false | _ => true end.
+  negb (try_outermost k) && match k with KParMapTry => false | KDemand d i => i <? d | _ => true end.
+
+(* the fault lies behind the demanded prefix: laziness keeps it invisible *)
+Definition undemanded (k : cname) : bool :=
+  match k with KDemand d i | KTryDemand d i => d <=? i | _ => false end.
 
 (* fault sources that are faults by construction (host function, throw, runaway recursion) *)
 Definition surely_faulting (l : leafsrc) : bool :=
@@ -196,8 +205,8 @@ Definition c05_is (c : c05_case) : bool :=
   | (_, l, k, _, _, o) =>
       match o with
       | ODied => false
-      | OErr => negb (try_outermost k)
+      | OErr => negb (try_outermost k) && negb (undemanded k)
       | OVal => negb ((no_try k && surely_faulting l) || guard_must_fire l)    (* a fault must not vanish into a (truncated) value *)
-      | OCatch => negb (no_try k && surely_faulting l)
+      | OCatch => negb (no_try k && surely_faulting l) && negb (undemanded k)
       end
   end.
